@@ -197,3 +197,88 @@ Fixpoint wf_args (en : env) (l : list expr) : Prop := match l with [] => True | 
 Definition agrees (en : env) (m : mstate) : Prop :=
   c_names (m_ctx m) = e_names en /\ c_lfuncs (m_ctx m) = e_lfuncs en /\ c_consts (m_ctx m) = e_consts en /\
   c_bpc (m_ctx m) = 6 /\ f_params (m_fn m) = e_params en /\ f_locals (m_fn m) = e_locals en.
+
+(* ---- straight-line statements ---- *)
+Inductive target := TLoc (i : nat) | TPar (i : nat) | TGlob (n : nat) | TProp (n : nat).
+Inductive stmt :=
+| SSet (t : target) (e : expr)                 (* set t = e *)
+| SCallS (f : nat) (args : list expr)          (* external handler, statement position *)
+| SLCallS (f : nat) (args : list expr).        (* handler of this script, statement position *)
+
+Definition compile_store (t : target) : bytes :=
+  match t with
+  | TLoc i => [b 82; b (scaled i)]
+  | TPar i => [b 81; b (scaled i)]
+  | TGlob n => [b 79; b (Z.of_nat n)]
+  | TProp n => [b 80; b (Z.of_nat n)]
+  end.
+Definition compile_s (s : stmt) : bytes :=
+  match s with
+  | SSet t e => compile_e e ++ compile_store t
+  | SCallS f args => flat_map compile_e args ++ compile_arglist (List.length args) false ++ [b 87; b (Z.of_nat f)]
+  | SLCallS f args => flat_map compile_e args ++ compile_arglist (List.length args) false ++ [b 86; b (Z.of_nat f)]
+  end.
+Definition ninstr_s (s : stmt) : nat :=
+  match s with
+  | SSet _ e => (ninstr e + 1)%nat
+  | SCallS _ args | SLCallS _ args => (fold_right (fun x a => ninstr x + a) 0 args + 2)%nat
+  end.
+
+(* the declared properties of the script, as the parser's context holds them *)
+Definition target_node (en : env) (props : list string) (pc : Z) (t : target) : node :=
+  match t with
+  | TLoc i => nth i (e_locals en) (Leaf KLocal "" 0 true)
+  | TPar i => nth i (e_params en) (Leaf KParam "" 0 true)
+  | TGlob n => Leaf KGlobal (nm en n) pc true
+  | TProp n => if mem_str (nm en n) props then Accessor pc (Leaf KNode "me" pc true) (nm en n) else Leaf KPropName (nm en n) pc true
+  end.
+
+(* the statement node appended to FunctionDef.statements when the code of s starts at pc *)
+Definition reify_s (en : env) (props : list string) (pc : Z) (s : stmt) : node :=
+  match s with
+  | SSet t e =>
+    let ps := pc + zlen (compile_e e) in
+    Stmt ps (Binary "assign" ps (target_node en props ps t) (reify_e en pc e))
+  | SCallS f args =>
+    let '(ns, pa) := reify_args en pc args in
+    let pcall := pa + arglist_len (List.length args) in
+    Stmt pcall (Call (nm en f) pcall (Some (LoadList "load_list" pa (rev ns))) true false false)
+  | SLCallS f args =>
+    let '(ns, pa) := reify_args en pc args in
+    let pcall := pa + arglist_len (List.length args) in
+    Stmt pcall (Call (nth f (e_lfuncs en) "") pcall (Some (LoadList "load_list" pa (rev ns))) true false true)
+  end.
+
+Definition globals_s (en : env) (pc : Z) (s : stmt) : list node :=
+  match s with
+  | SSet t e => globals_e en pc e ++ match t with TGlob n => [Leaf KGlobal (nm en n) (pc + zlen (compile_e e)) true] | _ => [] end
+  | SCallS _ args | SLCallS _ args => globals_args en pc args
+  end.
+
+Definition wf_target (en : env) (t : target) : Prop :=
+  match t with
+  | TLoc i => (i < List.length (e_locals en))%nat /\ scaled i < 256
+  | TPar i => (i < List.length (e_params en))%nat /\ scaled i < 256
+  | TGlob n | TProp n => (n < List.length (e_names en))%nat /\ Z.of_nat n < 256
+  end.
+Definition wf_s (en : env) (s : stmt) : Prop :=
+  match s with
+  | SSet t e => wf_target en t /\ wf_e en e
+  | SCallS f args => (f < List.length (e_names en))%nat /\ Z.of_nat f < 256 /\ Z.of_nat (List.length args) < 65536 /\ wf_args en args
+  | SLCallS f args => (f < List.length (e_lfuncs en))%nat /\ Z.of_nat f < 256 /\ Z.of_nat (List.length args) < 65536 /\ wf_args en args
+  end.
+
+(* a straight-line handler: its statements, then the handler's exit opcode *)
+Definition compile_body (l : list stmt) : bytes := flat_map compile_s l.
+Definition compile_straight (l : list stmt) : bytes := compile_body l ++ [b 1].
+Fixpoint reify_body (en : env) (props : list string) (pc : Z) (l : list stmt) : list node :=
+  match l with
+  | [] => []
+  | s :: r => reify_s en props pc s :: reify_body en props (pc + zlen (compile_s s)) r
+  end.
+Fixpoint globals_body (en : env) (pc : Z) (l : list stmt) : list node :=
+  match l with
+  | [] => []
+  | s :: r => globals_s en pc s ++ globals_body en (pc + zlen (compile_s s)) r
+  end.
+Fixpoint wf_body (en : env) (l : list stmt) : Prop := match l with [] => True | s :: r => wf_s en s /\ wf_body en r end.
